@@ -747,7 +747,18 @@ func ruleLexTcol(c *Ctx) []Obligation {
 			}
 			con := fmt.Sprintf("%s: the per-character tcol loop walks the text after the last line break", c.FnName(fn))
 			v := resolveArg(rng.X)
-			if w := afterLastBreak(v); w == "" {
+			// … unless the loop itself starts the column again at each line break it meets
+			resets := false
+			for _, st2 := range c.storesToFieldDeep(fn, fTcol) {
+				if k, isK := constInt(st2.Val); isK && k == 0 && classOf(st2) == "newline" {
+					if h2 := loopHeaderOf(liftBlock(st2, st.Parent())); h2 == h {
+						resets = true
+					}
+				}
+			}
+			if resets {
+				obs = append(obs, ok(R, con, c.InstrPos(rng), "the loop walks the whole text and resets tcol at each line break in it"))
+			} else if w := afterLastBreak(v); w == "" {
 				obs = append(obs, ok(R, con, c.InstrPos(rng), "range over text[LastIndex(text, \"\\n\")+1:]"))
 			} else {
 				obs = append(obs, bad(R, con, c.InstrPos(rng), "the loop that steps tcol "+w+": after a comment or string that spans lines the tab-expanded column includes the earlier lines, and a double-quoted string that starts on the same line strips too much"))
@@ -756,6 +767,17 @@ func ruleLexTcol(c *Ctx) []Obligation {
 		}
 	}
 	sort.Slice(movers, func(i, j int) bool { return c.FnName(movers[i]) < c.FnName(movers[j]) })
+	if len(movers) == 1 {
+		// one implementation of the counter: nothing to disagree with, but each class must be provided for
+		for _, cls := range []string{"newline", "tab", "other"} {
+			con := fmt.Sprintf("every function that advances tcol treats a %s character alike", cls)
+			if fp, has := maps[movers[0]][cls]; has {
+				obs = append(obs, ok(R, con, c.Pos(movers[0].Pos()), fmt.Sprintf("one function advances tcol (%s): %s", c.FnName(movers[0]), fp)))
+			} else {
+				obs = append(obs, bad(R, con, c.Pos(movers[0].Pos()), fmt.Sprintf("%s, the one function that advances tcol, has no update for this class", c.FnName(movers[0]))))
+			}
+		}
+	}
 	if len(movers) >= 2 {
 		for _, cls := range []string{"newline", "tab", "other"} {
 			con := fmt.Sprintf("every function that advances tcol treats a %s character alike", cls)
@@ -1302,4 +1324,16 @@ func sliceIsOneOf(c *Ctx, v ssa.Value, pred func(ssa.Value) bool) bool {
 		return false
 	}
 	return walk(v, nil, 0)
+}
+
+// liftBlock: the block of in as seen from fn — its own block when it sits in fn, the block of the call that reaches it
+// when it sits in a private helper of fn.
+func liftBlock(in ssa.Instruction, fn *ssa.Function) *ssa.BasicBlock {
+	if in.Parent() == fn {
+		return in.Block()
+	}
+	if l := liftTo(in, fn); l != nil {
+		return l.Block()
+	}
+	return in.Block()
 }
